@@ -27,6 +27,7 @@ fn main() {
         "C03" => ("model_checking", c03::run(&cli)),
         "C07" => ("model_checking", c07::run(&cli)),
         "C13" => ("fault_enumeration", c13::run(&cli)),
+        "C17" => ("model_checking", c07::run_journey(&cli)),
         "C19" => ("model_checking", c19::run(&cli)),
         "C05" => ("model_checking", c05::run(&cli)),
         "C09" => ("model_checking", c09::run(&cli)),
